@@ -213,3 +213,31 @@ func (s *VerifSST) SeekSeq(keys [][]byte, asc bool, limit int) (out [][]VerifEnt
 	}
 	return out, nil
 }
+
+// VerifBuildTableStale is VerifBuildTable where entry i is added through
+// AddStaleEntryWithLen(e, len(e.Value)) when stale[i] is set (as subcompact
+// does for deleted / expired entries it keeps) and through AddKey otherwise.
+func (env *VerifTableEnv) VerifBuildTableStale(fid uint64, entries []VerifEntry, stale []bool) (st *VerifSST, err error) {
+	defer func() {
+		if r := recover(); r != nil {
+			st, err = nil, fmt.Errorf("panic: %v", r)
+		}
+	}()
+	b := newTableBuiler(env.lm.opt)
+	for i, ve := range entries {
+		e := &kv.Entry{Key: kv.SafeCopy(nil, ve.Key), Value: kv.SafeCopy(nil, ve.Value), Meta: ve.Meta, ExpiresAt: ve.ExpiresAt}
+		if i < len(stale) && stale[i] {
+			b.AddStaleEntryWithLen(e, uint32(len(e.Value)))
+		} else {
+			b.AddKey(e)
+		}
+	}
+	t := openTable(env.lm, utils.FileNameSSTable(env.lm.opt.WorkDir, fid), b)
+	if t == nil {
+		return nil, errors.New("verif: openTable returned nil")
+	}
+	return &VerifSST{t: t}, nil
+}
+
+// StaleDataSize returns the table index's stale-data estimate.
+func (s *VerifSST) StaleDataSize() uint32 { return s.t.StaleDataSize() }
